@@ -195,6 +195,7 @@ fn main() {
                 "C02" => {
                     let plans = laws::plans_c02(&ctx);
                     laws::run(&ctx, plans, 100_000);
+                    laws::standard_geometric_exact(&ctx);
                     ctx.finish("cell = (family, float type, parameter tuple) sampled n times; every integer with pmf >= 1e-4 is its own bin, rest grouped at quantile edges; exhaustive small sets (Binomial n<=30 x p-grid, Hypergeometric N<=40), switch grids, random tuples; non-trivial = >= 3 bins with expected count >= 1000 or a documented constant; distinct = distinct cell keys", &ASSUME_LAW, false)
                 }
                 "C03" => {
